@@ -250,6 +250,92 @@ def check_op(sc, obs, opi, add):
         add('C18', 'disabled_empty', {'insights': str(ins)[:100]})
 
 
+def expected_exc_types(op):
+    f = op.get('fail') or {}
+    return {'ValueError': 'ValueError', 'Custom': 'CustomError', 'Attr': 'AttrError', 'SystemExit': 'SystemExit', 'KeyError': 'KeyError'}.get(f.get('exc', 'ValueError'))
+
+
+def check_failure_op(sc, obs, opi, add, latency_bound=None):
+    """clauses for a map-family op that was made to fail by a user function raising"""
+    op = sc['ops'][opi]
+    o = obs['ops'][opi] if opi < len(obs['ops']) else None
+    if o is None or op['op'] not in MAPS or not op.get('fail'):
+        return
+    f = op['fail']
+    will_fail = bool(f.get('at')) or f.get('init') or f.get('exit')
+    tasks = [c for c in obs.get('calls', []) if c[0] == opi and c[1] == 'task']
+    raised = obs.get('raised', [])
+    if o.get('outcome') == 'ok':
+        reached = any(c[5] in f.get('at', ()) for c in tasks) or any(c[1] in ('init', 'exit') and c[7] is None for c in obs.get('calls', []) if c[0] == opi)
+        if reached and op.get('consume', 'all') == 'all':
+            add('C04', 'failure_surfaces', {'raised_in_worker': raised[:2], 'call_outcome': 'ok'})
+        return
+    exc = o.get('exc') or {}
+    if not raised:
+        add('C04', 'raised_is_real', {'got': exc, 'raised_by_user_functions': []})
+        return
+    match = [r for r in raised if r['type'] == exc.get('type') and r['args'] == exc.get('args') and r['attrs'] == exc.get('attrs')]
+    if not match and exc.get('type') != 'CannotPickleExceptionError':
+        add('C04', 'same_type_args_attrs', {'got': exc, 'raised_by_user_functions': raised[:3]})
+    if not exc.get('cause_has_traceback'):
+        add('C04', 'cause_has_worker_traceback', {'cause': exc.get('cause_text')})
+    elif f.get('at') and not any(('Arg 0: %r' % elem_repr(op, i)) in (exc.get('cause_text') or '') or str(i) in (exc.get('cause_text') or '') for i in f['at']):
+        add('C04', 'cause_names_failing_arguments', {'cause': (exc.get('cause_text') or '')[:200]})
+    if op['op'] in ('map', 'map_unordered') and o.get('result') is not None:
+        add('C04', 'map_no_partial', {'result': str(o.get('result'))[:100]})
+    if op['op'] in ('imap', 'imap_unordered'):
+        ys = [e[1] for e in (o.get('io') or []) if e[0] == 'y']
+        exp = expected_values(op)
+        if op.get('input') != 'nd':
+            if op['op'] == 'imap' and ys != exp[:len(ys)]:
+                add('C04', 'yielded_before_raising_correct', {'yielded': ys[:10]})
+            if op['op'] == 'imap_unordered' and (collections.Counter(ys) - collections.Counter(exp)):
+                add('C04', 'yielded_before_raising_correct', {'yielded': ys[:10]})
+    if latency_bound is not None:
+        tfail = min((c[6] for c in obs.get('calls', []) if c[0] == opi and c[7] is None), default=None)
+        if tfail is not None and o.get('t1') is not None and o['t1'] - tfail > latency_bound:
+            add('C04', 'prompt', {'raised_in_worker_at': tfail, 'call_raised_at': o['t1'], 'bound': latency_bound})
+
+
+def elem_repr(op, i):
+    from harness.detsim.scenario import elem_of
+    e = elem_of(op.get('elem', 'scalar'), i)
+    return e[0] if isinstance(e, (tuple, list)) else e
+
+
+def check_apply_op(sc, obs, opi, add):
+    op = sc['ops'][opi]
+    o = obs['ops'][opi] if opi < len(obs['ops']) else None
+    if o is None or op['op'] != 'apply_batch' or 'apply' not in o:
+        if o is not None and op['op'] == 'apply_batch' and o.get('outcome') == 'raise':
+            add('C09', 'apply_batch_completes', {'exc': o.get('exc')})
+        return
+    f = op.get('fail') or {}
+    to = op.get('task_timeout')
+    dur = (op.get('dur') or {}).get('map', {}) if isinstance(op.get('dur'), dict) else {}
+    cbs = collections.defaultdict(list)
+    for c in o.get('callbacks', []):
+        cbs[c[1]].append(c)
+    for (i, kind, val, ready) in o['apply']:
+        slow = to is not None and float(dur.get(str(i), 0)) > to
+        if i in f.get('at', ()):
+            want = ('raise', expected_exc_types(op))
+        elif slow:
+            want = ('raise', 'TimeoutError')
+        else:
+            want = ('ok', value_of(i))
+        if (kind, val) != want:
+            add('C09', 'value_correct', {'task': i, 'got': (kind, val), 'expected': want})
+        if not ready:
+            add('C09', 'ready_after_get', {'task': i})
+        if len(cbs[i]) != 1:
+            add('C09', 'exactly_one_callback', {'task': i, 'callbacks': cbs[i]})
+        elif (cbs[i][0][0] == 'cb') != (want[0] == 'ok'):
+            add('C09', 'callback_kind_matches', {'task': i, 'callback': cbs[i][0], 'expected': want})
+    if o.get('outcome') != 'ok':
+        add('C09', 'failure_does_not_stop_pool', {'exc': o.get('exc')})
+
+
 def _same_workers(sc, opi):
     return True
 
@@ -263,6 +349,10 @@ def check_scenario(sc, obs, add):
         return
     for opi in range(len(obs.get('ops', []))):
         check_op(sc, obs, opi, add)
+        check_failure_op(sc, obs, opi, add, latency_bound=sc.get('latency_bound'))
+        check_apply_op(sc, obs, opi, add)
+    if obs.get('procs_alive'):
+        add('C05', 'no_worker_process_alive_after_exit', {'alive': obs['procs_alive'][:8]})
     if obs.get('alive_at_exit'):
         add('C05', 'no_thread_or_worker_alive_after_exit', {'alive': obs['alive_at_exit'][:8]})
     if obs.get('sigint_handler_after') != obs.get('sigint_handler_before'):
